@@ -25,6 +25,7 @@ import TLX.Crypto.Hash
 import TLX.Crypto.Toy
 import TLX.Ingest
 import TLX.OutBytes
+import TLX.Export
 namespace TLX.Drv.Pipeline
 open TLX TLX.MainLoop TLX.Pipeline
 
@@ -77,22 +78,14 @@ def step (t : DSt) : List String → DSt × String
     | .ok (_, out) => (t, if out.isEmpty then "empty" else " ".intercalate (out.map showPkt))
   | ["runfile", legacy, keyhex, caphex] =>
     -- FILE TO FILE: capture file bytes (TLX.Ingest = reader + DSB key lines + dpkt dissection + checksum verdicts) →
-    -- main loop with both composed machines → output file bytes (TLX.OutBytes = scapy serialisation + dpkt pcapng writer)
+    -- main loop with both composed machines → output file bytes (TLX.OutBytes = scapy serialisation + dpkt pcapng writer):
+    -- the whole program as ONE function, `TLX.Export.exportFile`
     match Bytes.ofHex caphex, (if keyhex = "-" then some none else (strOfHex keyhex).map some) with
     | some cap, some keytext =>
-      match Ingest.itemsWith Keylog.srcHexClass t.args.checksumTest (legacy == "1") cap with
-      | .error e => (t, "abort:" ++ e.name)
-      | .ok (xs, is) =>
-        let info := Ingest.lookup is
-        let fileKeys := keytext.map fun s => Keylog.getKeysFromString Keylog.srcHexClass (Keylog.universalNewlines s)
-        let TM := tlsMachine Crypto.realPrims Cipher.Toy.prims info
-        let QM := QuicPipeline.quicMachine Drv.Dissect.toyMask Crypto.realPrims Cipher.Toy.prims info
-        match runFrom TM QM freshState t.args ⟨fileKeys, xs⟩ with
-        | .error _ => (t, "err:options")
-        | .ok (_, out) =>
-          match OutBytes.fileOf out with
-          | .error e => (t, "abort:write:" ++ e.tag)
-          | .ok f => (t, "file:" ++ Bytes.toHex f)
+      match Export.exportFile Drv.Dissect.toyMask Crypto.realPrims Cipher.Toy.prims t.args (legacy == "1") keytext cap with
+      | .file f => (t, "file:" ++ Bytes.toHex f)
+      | .abort k => (t, "abort:" ++ k.name)
+      | .badOptions => (t, "err:options")
     | _, _ => (t, "bad-op")
   | _ => (t, "bad-op")
 
